@@ -10,7 +10,7 @@ import os
 
 THEOREMS = ["IstioModel.C07.HostTheorems", "IstioModel.C07.VisTheorems", "IstioModel.C07.ScopeTheorems",
             "IstioModel.C07.RuleTheorems"]
-STREAMS = [("host", 3000, 60000), ("vis", 1500, 30000), ("scope", 3000, 60000)]
+STREAMS = [("host", 3000, 60000), ("vis", 1500, 30000), ("scope", 4000, 60000)]
 
 
 def oracle(ctx, stream, case_lines, rep):
@@ -69,11 +69,29 @@ def run_oracle_over(ctx, stream, ops):
 
 def run(ctx):
     ctx.rule = ("host: 1-6 hostname pairs per case over labels {a,b,c,com,foo,svc,x-y,a1} with `*.`, `*`, bare `*`, `**.`, inner-star, "
-                "leading-dot and empty forms, second name derived from the first (parent wildcard, added label, dropped wildcard); "
+                "leading-dot and empty forms, second name derived from the first (parent wildcard, added label, dropped wildcard). "
+                "vis: 2-12 services over 2-4 namespaces, every exportTo form (unset, *, ., ~, one/two namespaces, own namespace, "
+                ".+namespace, and the mixtures ~+namespace, *+~), every mesh default (nil, *, ., namespace, .+namespace, ~, empty list), "
+                "serviceEntryVisibility cap on/off; queries exported(ns), visible(svc, ns), index(hostname). "
+                "scope: the same meshes with colliding hostnames across and inside namespaces, Kubernetes and ServiceEntry provenance, aliases, "
+                "0-4 VirtualServices (wildcard hosts, exportTo forms, gateways, gateway semantics, sourceNamespace matches, ports), "
+                "0-4 DestinationRules (wildcard hosts, exportTo forms, workloadSelector), 0-3 Sidecars (root namespace, workloadSelector, "
+                "0-3 egress listeners, port-bound / HTTP_PROXY, host forms ns/h, */h, ./h, ns/*, */*, wildcards, ~ns/h, ~/h, ~./h, ~*/h, illegal), "
+                "flags UnifiedSidecarScoping / SidecarPickBestServiceNamespace / EnhancedDestinationRuleMerge on and off; one SidecarScope "
+                "query per namespace (+ a foreign one), gateway scopes, and the CDS output of one proxy. "
                 "distinct = hash of (ops, implementation outputs); non-trivial = at least one op")
     ctx.assumptions = [
-        "hostnames are ASCII (Go compares bytes, the model compares characters)",
+        "hostnames and namespaces are ASCII (Go compares bytes, the model compares characters)",
+        "hostnames in VirtualService / DestinationRule are fully qualified (ResolveShortnameToFQDN is the identity on names containing a dot)",
+        "services have pairwise distinct (creationTime, name, namespace) sort keys (SortServicesByCreationTime is then a total order; multi-host ServiceEntry ties belong to C17)",
+        "at most one visible Kubernetes service per hostname and distinct creation times among services sharing a hostname (pickBestVisibleNamespace ranges over a Go map; theorem pickBest_order_independent_partial, witness otherwise)",
+        "Attributes.Aliases is an input (resolveServiceAliases is not modelled); all workloadSelectors of DestinationRules are equal",
+        "the proxy namespace is not one of the exportTo keywords '.', '~' (ValidNs) and no VirtualService lives in a namespace named '*'",
+        "completeness is stated for export sets in which '~' does not stand next to a namespace or '.' (ExportWF; validation enforces it for ServiceEntry; witness exported_mixed_none_witness otherwise)",
     ]
+    ctx.trusted.append("pilot/pkg/model/zz_verif_c07.go (verif-tagged accessors: servicesExportedToNamespace, serviceExportTo, SidecarScope.destinationRules, ConsolidatedDestRule.from)")
+    ctx.trusted.append("harness service registry / config store construction (model.NewEnvironment + FakeStore + VirtualServiceController + PushContext.InitContext), "
+                       "closed-form index model (public / exportedToNamespace / HostnameAndNamespace as filters of the creation-ordered list)")
     proved = ctx.lean_prove(THEOREMS)
     if not ctx.build_drv():
         return
@@ -120,8 +138,26 @@ def replay(ctx, path):
 
 
 MANIFEST = {
-    "level_text": "Lean 4 proof (work in progress): hostname wildcard algebra.",
-    "level_note": "Trusted: Lean kernel + {propext, Classical.choice, Quot.sound}; hand-written model tied by differential testing.",
-    "technique": "Lean 4 theorems over an exact model + differential correspondence with the real Go functions",
+    "level_text": ("Lean 4 proof over an exact executable model of host.Name.Matches/SubsetOf, PushContext.serviceExportTo / IsServiceVisible / "
+                   "servicesExportedToNamespace and the service indexes, sidecar.go (egress host parsing, hostClassification, selectServices in both "
+                   "UnifiedSidecarScoping branches, alias/port trimming, servicesForExactHosts, collectImportedServices with pickFirst/pickBestVisibleNamespace, "
+                   "appendSidecarServices, default and gateway scopes, Sidecar selection), SelectVirtualServices and the DestinationRule index / merge / lookup. "
+                   "Theorems (all inputs, no size bound): hostname algebra incl. subsetOf_iff_denote_subset and matches_iff_denote_intersect; visible_iff "
+                   "(IsServiceVisible = documented exportTo semantics for every default/cap), exported_sound/complete; scope_sound (every service of "
+                   "SidecarScope.services is a mesh service Visible to the proxy namespace and Imported by the scope) ; scope_complete / default_scope_complete "
+                   "(visible + matched by a port-unrestricted egress host => delivered or displaced by a visible same-hostname winner); exact_fastpath_parity; "
+                   "vs_export_sound, dr_export_sound (a rule not exported to the proxy namespace is never selected); gateway_scope_sound; "
+                   "pickBest_order_independent_partial. Two defects found by the proof obligations and reproduced on the real code were repaired in /repo "
+                   "(F7 VirtualService-destination leak, F10 exact-host fast path dropping a service shadowed by a hidden duplicate); the old behaviours are "
+                   "kept as theorems scope_sound_fails_unfixed / exact_path_incomplete_witness_unfixed and as corpus cases. The model is tied to /repo on every run "
+                   "by a line-by-line differential against a real PushContext / SidecarScope / CDS generator, and an independent Go oracle states the property on the real output."),
+    "level_note": ("Trusted: Lean kernel + {propext, Classical.choice, Quot.sound}; the hand-written model (differential testing on ~8500 cases quick / 150000 thorough: "
+                   "host pairs, visibility queries, SidecarScope services / per-listener services and VirtualServices / DestinationRules, CDS cluster names); "
+                   "pilot/pkg/model/zz_verif_c07.go; the harness environment construction. Not modelled: initServiceRegistry loop structure (closed-form index model), "
+                   "resolveServiceAliases, short-name resolution, delegate VirtualService merging, traffic-policy/subset content of consolidated DestinationRules, "
+                   "RDS/LDS generation (only observed by the oracle: route virtual hosts within scope), FilterGatewayClusterConfig gateway path, EDS content. "
+                   "List-level fast-path parity is false (witnesses fastpath_list_parity_fails_witness, fastpath_duplicate_key_witness); legacy DestinationRule merge "
+                   "(flag off) violates export soundness (dr_export_legacy_merge_witness)."),
+    "technique": "Lean 4 theorems over an exact model of visibility / sidecar scoping + differential correspondence with the real PushContext, SidecarScope and CDS + independent property oracle",
     "design_ref": "DESIGN.md section 5 C07",
 }
